@@ -346,13 +346,20 @@ def _decl_init(f, path):
 
 def _mid_var(f, loop, lo, hi):
     """The local assigned (lo + hi) / 2 in the loop body."""
+    cands = []
     for n in walk(loop["body"]):
         if is_assignment(n) and n.get("op") == "=":
-            r = strip(n["rhs"])
-            if r["k"] == "BinaryOperator" and r["op"] == "/" and const_value(r["rhs"]) == 2:
-                s = strip(r["lhs"])
-                if s["k"] == "BinaryOperator" and s["op"] == "+" and {access_path(f, s["lhs"]), access_path(f, s["rhs"])} == {lo, hi}:
-                    return access_path(f, n["lhs"]), n
+            cands.append((access_path(f, n["lhs"]), n["rhs"], n))
+        elif n["k"] == "DeclStmt":
+            for d in n["decls"]:
+                if d.get("init") is not None and "d" in d:
+                    cands.append((("local", d["d"]), d["init"], n))
+    for tgt, rhs, n in cands:
+        r = strip(rhs)
+        if r["k"] == "BinaryOperator" and r["op"] == "/" and const_value(r["rhs"]) == 2:
+            s = strip(r["lhs"])
+            if s["k"] == "BinaryOperator" and s["op"] == "+" and {access_path(f, s["lhs"]), access_path(f, s["rhs"])} == {lo, hi}:
+                return tgt, n
     return None, None
 
 
@@ -393,6 +400,7 @@ def r_bisect(db, rep):
             closed = cond["op"] == "<="
             rep.visit(f)
             sym_m = ("local", m[1])
+            sb.env[("local", m[1])] = sym_m          # the midpoint stays an atom even when it is a single-definition local
             ga, gb = canon(sb.sym(ia)), canon(sb.sym(ib))
             okR = {symR} | ({canon(sb.sym(initR))} if initR is not None else set())
             okLm1 = {canon(mk_op("-", sb.sym(mc["lhs"]), C(1)))} | ({canon(mk_op("-", sb.sym(initL), C(1)))} if initL is not None else set())
@@ -435,3 +443,169 @@ def r_bisect(db, rep):
                             rep.viol("%s#%s-step-%s" % (f.qn, side, fmt_path(f, p)), f.nloc(n),
                                      "%s: the %s-boundary search moves %s to %s instead of %s: on a %s interval that either skips an element or never "
                                      "terminates" % (f.qn, side, fmt_path(f, p), got, steps[p], "closed" if closed else "half-open"), f.qn)
+
+
+def _may_be_zero(f, expr):
+    """The returned expression can evaluate to 0 as far as constants tell: literal 0, or a local one of whose definitions is 0."""
+    s = strip(expr)
+    if const_value(s) == 0:
+        return True
+    if s["k"] == "DeclRefExpr" and s.get("dk") == "local":
+        for n in f.live_nodes():
+            if n["k"] == "DeclStmt":
+                for v in n["decls"]:
+                    if v.get("d") == s["d"] and v.get("init") is not None and const_value(v["init"]) == 0:
+                        return True
+            elif is_assignment(n) and n.get("op") == "=" and access_path(f, n["lhs"]) == ("local", s["d"]) and const_value(n["rhs"]) == 0:
+                return True
+    if s["k"] == "ConditionalOperator":
+        return _may_be_zero(f, s["then"]) or _may_be_zero(f, s["else"])
+    return False
+
+
+def _nonzero_difference_before(db, f, brk, rv):
+    """The statement list that ends in `brk` assigns rv = X - Y, and `X != Y` is known on the way to it."""
+    from rules_serial import SeqBuilder
+    from symx import canon
+    par = f.parent(brk)
+    if par is None or par["k"] != "CompoundStmt":
+        return False
+    sb = SeqBuilder(db, f, "x", nosubst=True)
+    for st in par.get("c", []):
+        x = strip(st)
+        if is_assignment(x) and x.get("op") == "=" and access_path(f, x["lhs"]) == rv:
+            r = strip(x["rhs"])
+            if r["k"] == "BinaryOperator" and r["op"] == "-":
+                a, b = canon(sb.sym(r["lhs"])), canon(sb.sym(r["rhs"]))
+                for c, pol in f.cfg.guards(brk):
+                    sc = strip(c) if c is not None else None
+                    if sc is not None and sc["k"] == "BinaryOperator" and sc["op"] in ("!=", "==") and (sc["op"] == "!=") == pol:
+                        if {canon(sb.sym(sc["lhs"])), canon(sb.sym(sc["rhs"]))} == {a, b}:
+                            return True
+    return False
+
+
+@rule("R-CMPEND", 3, "a full-string / prefix comparator that takes the pattern length declares a match (returns a value that may be 0) only "
+                     "where it has observed the end of the pattern: the return is edge-dominated by `pos == len` / `pos >= len` / "
+                     "`!(pos < len)` / `pattern[pos] == 0`; leaving the symbol loop because the *stored* string ran out is not a match")
+def r_cmpend(db, rep):
+    P = get_polarity(db)
+    for f in sorted(P.cands, key=lambda x: (x.file, x.line)):
+        if not P.summary[f.id] or f.cfg is None:
+            continue
+        qidx = {i for i, _ in P.summary[f.id]}
+        # the length parameter: an integer parameter compared with a local somewhere in the function
+        lens = set()
+        for n in f.live_nodes():
+            if n["k"] == "BinaryOperator" and n["op"] in ("==", "!=", "<", "<=", ">", ">="):
+                for a, b in ((n["lhs"], n["rhs"]), (n["rhs"], n["lhs"])):
+                    pa, pb = access_path(f, a), access_path(f, b)
+                    if pa and pa[0] == "param" and len(pa) == 2 and pa[1] not in qidx and f.types[f.params[pa[1]]["t"]]["kind"] in ("int", "uint") \
+                            and pb and pb[0] == "local":
+                        lens.add(pa)
+        if not lens:
+            continue
+        rep.visit(f)
+        rets = [n for n in f.live_nodes() if n["k"] == "ReturnStmt" and n.get("value") is not None and _may_be_zero(f, n["value"])]
+        def end_seen(atoms, retvar):
+            ok = False
+            for c, pol in atoms:
+                if c is None:
+                    continue
+                sc = strip(c)
+                # the returned variable is known to be non-zero here: not a match
+                if retvar is not None and sc["k"] == "BinaryOperator" and sc["op"] in ("!=", "==") and \
+                        ((access_path(f, sc["lhs"]) == retvar and const_value(sc["rhs"]) == 0) or (access_path(f, sc["rhs"]) == retvar and const_value(sc["lhs"]) == 0)) \
+                        and (sc["op"] == "!=") == pol:
+                    return True
+                if retvar is not None and access_path(f, sc) == retvar and pol:
+                    return True
+                if sc["k"] == "BinaryOperator" and sc["op"] in ("==", "!=", "<", "<=", ">", ">="):
+                    for a, b, flip in ((sc["lhs"], sc["rhs"], False), (sc["rhs"], sc["lhs"], True)):
+                        pa, pb = access_path(f, a), access_path(f, b)
+                        if pb in lens and pa and pa[0] == "local":
+                            op = sc["op"]
+                            if flip:
+                                op = {"<": ">", "<=": ">=", ">": "<", ">=": "<=", "==": "==", "!=": "!="}[op]
+                            if (op in ("==", ">=", ">") and pol) or (op in ("<", "<=", "!=") and not pol):
+                                ok = True
+                    for a, b in ((sc["lhs"], sc["rhs"]), (sc["rhs"], sc["lhs"])):
+                        if sc["op"] in ("==", "!=") and const_value(b) == 0 and byte_load_param(f, a) in qidx and (sc["op"] == "==") == pol:
+                            ok = True
+                elif byte_load_param(f, sc) in qidx and not pol:
+                    ok = True
+            return ok
+
+        for r in rets:
+            rep.inst(f.nloc(r), "%s: return that may report a match" % f.qn)
+            rep.ob()
+            rv = access_path(f, r["value"])
+            rv = rv if rv and rv[0] == "local" and len(rv) == 2 else None
+            ok = end_seen(f.cfg.guards(r), rv)
+            tv = strip(r["value"])
+            if not ok and tv["k"] == "ConditionalOperator":
+                # return c ? a : b  -- each arm that may be 0 is judged under the outcome of c that selects it
+                ok = True
+                for arm, pol in ((tv["then"], True), (tv["else"], False)):
+                    if _may_be_zero(f, arm):
+                        av = access_path(f, arm)
+                        av = av if av and av[0] == "local" and len(av) == 2 else None
+                        if not end_seen(list(f.cfg.guards(r)) + implied_atoms(tv["cond"], pol), av):
+                            ok = False
+                if ok:
+                    continue
+            if not ok:
+                # a return that directly follows a loop: it is reached through the loop condition or through a break; each way in
+                # must carry the evidence
+                par = f.parent(r)
+                sib = par.get("c", []) if par is not None and par["k"] == "CompoundStmt" else []
+                idx = next((i for i, x in enumerate(sib) if x is r), -1)
+                prev = sib[idx - 1] if idx > 0 else None
+                if idx > 1 and prev is not None and prev["k"] not in ("WhileStmt", "ForStmt", "DoStmt"):
+                    # statements that cannot branch (e.g. restoring the sentinel byte) may sit between the loop and the return
+                    k = idx - 1
+                    while k >= 0 and sib[k]["k"] not in ("WhileStmt", "ForStmt", "DoStmt", "IfStmt", "SwitchStmt", "ReturnStmt"):
+                        k -= 1
+                    prev = sib[k] if k >= 0 and sib[k]["k"] in ("WhileStmt", "ForStmt", "DoStmt") else None
+                if prev is not None and prev["k"] in ("WhileStmt", "ForStmt", "DoStmt"):
+                    ways = []
+                    if prev.get("cond") is not None:
+                        ways.append(implied_atoms(prev["cond"], False))
+                    for b in walk(prev["body"]):
+                        if b["k"] == "BreakStmt" and not any(a is not prev and a["k"] in ("WhileStmt", "ForStmt", "DoStmt", "SwitchStmt")
+                                                             and any(x is a for x in walk(prev["body"])) for a in f.ancestors(b)):
+                            if rv is not None and _nonzero_difference_before(db, f, b, rv):
+                                continue        # cmp = a - b under `a != b`: non-zero, not a match
+                            ways.append(f.cfg.guards(b))
+                    ok = bool(ways) and all(end_seen(w, rv) for w in ways)
+            if not ok:
+                rep.viol("%s#match-without-end-of-pattern" % f.qn, f.nloc(r),
+                         "%s can return 0 (match) at line %s without having observed the end of the pattern: a stored string that ends "
+                         "before the pattern does (a proper prefix of it) is reported as equal / as matching the prefix" % (f.qn, r.get("l")), f.qn)
+        continue
+        for r in []:
+            ok = False
+            for c, pol in f.cfg.guards(r):
+                if c is None:
+                    continue
+                sc = strip(c)
+                if sc["k"] == "BinaryOperator" and sc["op"] in ("==", "!=", "<", "<=", ">", ">="):
+                    for a, b, flip in ((sc["lhs"], sc["rhs"], False), (sc["rhs"], sc["lhs"], True)):
+                        pa, pb = access_path(f, a), access_path(f, b)
+                        if pb in lens and pa and pa[0] == "local":
+                            op = sc["op"]
+                            if flip:
+                                op = {"<": ">", "<=": ">=", ">": "<", ">=": "<=", "==": "==", "!=": "!="}[op]
+                            # position OP length: which outcome means "pattern consumed"?
+                            if (op in ("==", ">=", ">") and pol) or (op in ("<", "<=", "!=") and not pol):
+                                ok = True
+                    # pattern[pos] == 0
+                    for a, b in ((sc["lhs"], sc["rhs"]), (sc["rhs"], sc["lhs"])):
+                        if sc["op"] in ("==", "!=") and const_value(b) == 0 and byte_load_param(f, a) in qidx and (sc["op"] == "==") == pol:
+                            ok = True
+                elif byte_load_param(f, sc) in qidx and not pol:
+                    ok = True
+            if not ok:
+                rep.viol("%s#match-without-end-of-pattern" % f.qn, f.nloc(r),
+                         "%s can return 0 (match) at line %s without having observed the end of the pattern: a stored string that ends "
+                         "before the pattern does (a proper prefix of it) is reported as equal / as matching the prefix" % (f.qn, r.get("l")), f.qn)
